@@ -186,7 +186,36 @@ fn main() {
             }
         }
     }
+    // enumerations: numbering and names as observed at run time vs the pinned table
+    let mut enums_checked = 0;
+    let enums_p = get("--enums", "");
+    if get("--dump-enums", "") == "1" {
+        let m: serde_json::Map<String, Value> = generated::all_enums().into_iter().map(|(k, v)| (k.to_string(), json!(v.into_iter().map(|(i, n)| json!([i, n])).collect::<Vec<_>>()))).collect();
+        println!("{}", Value::Object(m));
+        return;
+    }
+    if shard == 0 && only.is_empty() && sample == 0 && !enums_p.is_empty() {
+        let pinned_e: Value = serde_json::from_str(&std::fs::read_to_string(&enums_p).expect("pinned enums")).expect("enums json");
+        let cur = generated::all_enums();
+        for (k, table) in &cur {
+            enums_checked += 1;
+            let now = json!(table.iter().map(|(i, n)| json!([i, n])).collect::<Vec<_>>());
+            match pinned_e.get(*k) {
+                Some(p) if *p == now => {}
+                Some(p) => violations.push(json!({"type": k, "what": format!("{k}: enumeration values / names are {now}, the protobuf definition gives {p}"), "sig": format!("{k}: enumeration")})),
+                None => unpinned.push(k.to_string()),
+            }
+        }
+        if let Some(m) = pinned_e.as_object() {
+            for k in m.keys() {
+                if !cur.iter().any(|(c, _)| c == k) {
+                    violations.push(json!({"type": k, "what": format!("{k}: enumeration of the pinned definition no longer exists at this module path"), "sig": format!("{k}: missing")}));
+                }
+            }
+        }
+    }
     let doc = json!({
+        "enumerations_checked": enums_checked,
         "types_checked": checked, "evals": evals, "types_diffed": diffed, "diff_evals": diff_evals, "urls_checked": urls_checked,
         "hostile_decoded": hostile_ok, "hostile_rejected": hostile_err, "unpinned": unpinned, "missing": missing,
         "violations": violations, "samples": samples, "distinct_shapes": shapes_distinct.len(),
